@@ -23,7 +23,7 @@ RULE = ("cases: sequences of 1-3 public operations (products, solves through Cho
 ASSUMPTIONS = ["op schemas (alias_info.is_write) identify in-place ATen writes", "bitwise comparison of snapshots taken before the call"]
 REQUIRED_STATS = ("operations", "aten_ops_seen", "aten_writes_seen")
 
-OPS = ["matmul", "rmatmul", "t_matmul", "to_dense", "diagonal", "getitem", "getitem_tensor", "solve", "solve_cg", "solve_left", "inv_quad", "logdet",
+OPS = ["getitem_tensor_neg", "matmul", "rmatmul", "t_matmul", "to_dense", "diagonal", "getitem", "getitem_tensor", "solve", "solve_cg", "solve_left", "inv_quad", "logdet",
        "inv_quad_logdet_slq", "cholesky", "root_decomposition", "root_lanczos", "root_inv", "root_inv_lanczos", "eigh", "svd", "diagonalization",
        "add_diagonal", "add_jitter", "add_low_rank", "cat_rows", "pivoted_cholesky", "preconditioner", "samples", "sqrt_inv_matmul", "sum_batch",
        "mul_scalar", "mul_op", "add_tensor", "add_op", "expand", "clone_detach", "double", "evaluate_kernel", "rebuild"]
@@ -111,6 +111,13 @@ def _apply(opname, op, dense, g, layout, rng):
     if opname == "getitem_tensor":
         idx = _hostile(torch.tensor([0, n - 1, 0]), layout if layout != "expanded" else None)
         return (lambda: (op[..., idx, idx], op[..., idx, :].to_dense())), {"index": idx}
+    if opname == "getitem_tensor_neg":
+        # negative entries have to be wrapped - in a copy, not in the caller's index tensor (also a slice of a larger tensor)
+        idx = _hostile(torch.tensor([-1, 0, -n]), layout if layout != "expanded" else None)
+        bidx = _hostile(torch.tensor([-1, 0, 0]), layout if layout != "expanded" else None) if batch else None
+        if bidx is not None:
+            return (lambda: (op[..., idx, idx], op[..., idx, :].to_dense(), op[(bidx,) + (slice(None),) * (len(batch) - 1) + (idx, idx)])), {"index": idx, "batch_index": bidx}
+        return (lambda: (op[..., idx, idx], op[..., idx, :].to_dense(), op[..., :, idx].to_dense())), {"index": idx}
     if opname == "solve":
         return (lambda: op.solve(R)), ex
     if opname == "solve_cg":
